@@ -507,7 +507,8 @@ def computeFromData (E : Engine α) (sw : Switches) (pwf : Nat → α → α) (p
   let screens := estimateType2 E pwf U sA sB d euler sinh1
   let nA := ncart d.LA
   let nB := ncart d.LB
-  let passes := fun (l : Nat) => !sw.pairScreen || E.pairTol < screens[l]!
+  -- `!(screens[l] <= tolerance)`: an estimate that is not a number does not screen
+  let passes := fun (l : Nat) => !sw.pairScreen || !decide (screens[l]! ≤ E.pairTol)
   let v0 : Array α :=
     if !noType1 U && passes U.L then
       type1 E sw pwf maxPow U sA sB d CA CB par
